@@ -19,7 +19,6 @@ import (
 	"github.com/ipfs/go-cid"
 	"github.com/multiformats/go-multihash"
 	"github.com/rpcpool/yellowstone-faithful/compactindexsized"
-	legacybucketteer "github.com/rpcpool/yellowstone-faithful/deprecated/bucketteer"
 	legacyindex "github.com/rpcpool/yellowstone-faithful/deprecated/compactindex"
 	"github.com/rpcpool/yellowstone-faithful/indexes"
 	old_faithful_grpc "github.com/rpcpool/yellowstone-faithful/old-faithful-proto/old-faithful-grpc"
@@ -114,54 +113,6 @@ func c03FindCollider(db *compactindexsized.DB, stored [][]byte, gen func(i uint6
 		}
 	}
 	return nil, nil, maxTries
-}
-
-// c03BuildLegacyCidIndex writes a deprecated (size-less) cid-to-offset index over the epoch's CAR with the
-// repository's own legacy builder: key = CID bytes, value = offset of the section in the CAR.
-func c03BuildLegacyCidIndex(dir string, t *cargen.Truth) (string, error) {
-	tmp := filepath.Join(dir, "legacy-build")
-	if err := os.MkdirAll(tmp, 0o755); err != nil {
-		return "", err
-	}
-	b, err := legacyindex.NewBuilder(tmp, uint(len(t.Objects)), uint64(len(t.Bytes)))
-	if err != nil {
-		return "", err
-	}
-	defer b.Close()
-	for _, o := range t.Objects {
-		if err := b.Insert(o.Cid.Bytes(), o.Offset); err != nil {
-			return "", err
-		}
-	}
-	path := filepath.Join(dir, "legacy.cid-to-offset.index")
-	f, err := os.OpenFile(path, os.O_CREATE|os.O_RDWR|os.O_TRUNC, 0o644)
-	if err != nil {
-		return "", err
-	}
-	defer f.Close()
-	if err := b.Seal(context.Background(), f); err != nil {
-		return "", err
-	}
-	return path, nil
-}
-
-// c03BuildLegacySigExists writes the signature-existence index in the deprecated format (which a config with
-// the deprecated cid-to-offset index is read with), using the repository's own legacy writer.
-func c03BuildLegacySigExists(dir string, t *cargen.Truth) (string, error) {
-	path := filepath.Join(dir, "legacy.sig-exists.index")
-	os.Remove(path)
-	w, err := legacybucketteer.NewWriter(path)
-	if err != nil {
-		return "", err
-	}
-	for _, tx := range t.Txs {
-		w.Put(tx.Sig)
-	}
-	if _, err := w.Seal(map[string]string{}); err != nil {
-		w.Close()
-		return "", err
-	}
-	return path, w.Close()
 }
 
 // c03FindLegacyCollider: like c03FindCollider for the deprecated index format (bucket and in-bucket hash
@@ -388,7 +339,7 @@ func TestVerif_C03(t *testing.T) {
 	var legacyCidColliders []cid.Cid
 	legacyConfig := ""
 	if task(4) {
-		lpath, err := c03BuildLegacyCidIndex(eA.Dir, eA.Truth)
+		lpath, err := vkBuildLegacyCidIndex(eA.Dir, eA.Truth)
 		if err != nil {
 			R.Internal("cannot build the legacy cid-to-offset index: %v", err)
 			return
@@ -422,7 +373,7 @@ func TestVerif_C03(t *testing.T) {
 			}
 		}
 		lf.Close()
-		lsig, err := c03BuildLegacySigExists(eA.Dir, eA.Truth)
+		lsig, err := vkBuildLegacySigExists(eA.Dir, eA.Truth)
 		if err != nil {
 			R.Internal("cannot build the legacy sig-exists index: %v", err)
 			return
